@@ -164,7 +164,13 @@ def claim_adapters(cx, res, kf):
             rec["err"], rec["some"] = is_err, pres
             st.events.append(("call", callee_fn))
             return S.mk_result(engine, is_err, S.mk_option(pres, Opaque("T", "item", {})), Opaque("Error", "e", {"kind": "callee"}))
-        eng.stubs = [(re.compile(r"^Parser::<[^>]*>::%s$" % callee_fn), h_next)] + S.COMBINATOR_STUBS + S.CORE_STUBS
+        def h_mkerr(engine, st, fr, callee, argv, m):
+            st.events.append(("made_error", argv[1] if len(argv) > 1 else None))
+            return Opaque("Error", "made by the adapter", {"kind": "syntax"})
+        eng.stubs = [(re.compile(r"^Parser::<[^>]*>::%s$" % callee_fn), h_next),
+                     (re.compile(r"^Parser::<[^>]*>::(peek_error|error)$"), h_mkerr),
+                     (re.compile(r"^(?:parse::)?(?:error::)?Error::(is_eof|is_io|is_syntax|classify|location)$"),
+                      lambda e, st, fr, c, a, m: e.sym_bool("errq") if m.group(1).startswith("is_") else Opaque("ErrInfo", m.group(1)))] + S.COMBINATOR_STUBS + S.CORE_STUBS
 
         def init(e, st, fr):
             ref, cons, ov = K.parser_state(cx, e, st)
@@ -198,11 +204,77 @@ def claim_adapters(cx, res, kf):
                     res.must_be_unsat(pc + [z3.Not(z3.And(z3.Not(rec["err"]), rec["some"]))], "%s::next yields Ok without an item" % which)
                 else:
                     res.must_be_unsat(pc + [z3.Not(rec["err"])], "%s::next yields an error the parser did not report" % which)
+                    e_ = inner_r.variants.get(1, [None])[0]
+                    if isinstance(e_, Opaque) and e_.label == "made by the adapter":
+                        res.must_be_unsat(pc, "%s::next replaces the parser's result by an error of its own" % which)
                 n_ok += 1
         res.vacuity.append(("%s adapter has 3 outcomes" % which, n_ok == 3))
 
 
+def claim_expect_end(cx, res, kf):
+    """expect_end / end: skip trivia, Ok at the end of input, otherwise a trailing-characters error about the PEEKED byte, which
+    stays unconsumed - so a caller may go on reading the next datum from the same parser."""
+    import re
+    from . import builders as B
+    for meth in ("expect_end", "end"):
+        fn = C.resolve_callee(cx, "Parser::<R>::" + meth)
+        if fn is None:
+            res.error = "Parser::%s not found" % meth
+            return
+        eng = C.make_engine(cx, [], loop_mode="unroll", unroll=1, timeout_s=60, max_paths=500)
+        eng.stable_names = True
+        eng.stubs = B.builder_stubs(cx, eng) + S.COMBINATOR_STUBS + S.CORE_STUBS
+
+        def init(e, st, fr):
+            ref, cons, ov = K.parser_state(cx, e, st)
+            fr.locals[1] = ref
+            return cons
+        terms = eng.explore(fn.name, init)
+        res.absorb(eng)
+        seen = {"ok": 0, "trailing": 0, "io": 0}
+        for t in terms:
+            pc = list(t.state.pc)
+            if t.kind != "RETURN":
+                res.must_be_unsat(pc, "%s: ends in %s" % (meth, t.kind))
+                continue
+            ev = t.state.events
+            ws = [e_ for e_ in ev if e_[0] == "ws"]
+            reads = [e_[0] for e_ in ev if e_[0] in ("eat", "peek_or_null", "expect", "symsuffix", "symscratch") or e_[0].startswith("raw:")]
+            if len(ws) != 1:
+                res.must_be_unsat(pc, "%s: skips trivia %d times" % (meth, len(ws)))
+                continue
+            if reads:
+                res.must_be_unsat(pc, "%s: reads or consumes input beyond the trivia (%s): the byte it complains about is lost for the next call" % (meth, ", ".join(reads)))
+                continue
+            _, nm, werr, wsome, wbyte = ws[0]
+            kind, payload = K.classify_return(eng, t)
+            if kind == "ok":
+                seen["ok"] += 1
+                res.must_be_unsat(pc + [z3.Not(z3.And(z3.Not(werr), z3.Not(wsome)))], "%s: Ok although input other than trivia remains (or a read failed)" % meth)
+            elif kind == "err":
+                if isinstance(payload, Opaque) and payload.attrs.get("kind") == "io":
+                    seen["io"] += 1
+                    res.must_be_unsat(pc + [z3.Not(werr)], "%s: I/O error without a failing read" % meth)
+                else:
+                    seen["trailing"] += 1
+                    ci = K.err_code_index(eng, payload)
+                    code = K.code_name(eng, ci) if ci is not None else "?"
+                    errs = [e_ for e_ in ev if e_[0] == "error"]
+                    if code != "TrailingCharacters":
+                        res.must_be_unsat(pc, "%s: reports %s for trailing input" % (meth, code))
+                    res.must_be_unsat(pc + [z3.Not(z3.And(z3.Not(werr), wsome))], "%s: trailing-characters error at the end of input" % meth)
+            else:
+                res.must_be_unsat(pc, "%s: unclassified result" % meth)
+        for k, n in seen.items():
+            res.vacuity.append(("%s: %s outcome reached" % (meth, k), n > 0))
+
+
 CLAIMS = [
+    Claim("c12_expect_end", "C12", "quick", claim_expect_end,
+          "expect_end / end: trivia is skipped once; Ok exactly at the end of input; otherwise the trailing-characters error, and the "
+          "byte it is about stays unconsumed (no read or discard beyond the trivia) so the same parser can go on with the next datum; "
+          "an I/O error exactly when the read failed",
+          "arbitrary reader behaviour", configs=("fast",), also=("C06",), confirm=("iteration", "toplevel")),
     Claim("c12_whitespace", "C12", "quick", claim_whitespace,
           "parse_whitespace skips exactly the bytes SP, TAB, LF, CR, FF and line comments from ';' to the next LF or "
           "EOF, one byte per step, returns the first other byte unconsumed (or end of input), never a syntax error, "
